@@ -20,6 +20,16 @@ def belongs(loc, langs):
     return any(loc == l or loc.startswith(l + "-") for l in langs)
 
 
+def seq_probe(job):
+    """one process, the same language list requested with use_given_order on / off / on again"""
+    s, L = job
+    out = []
+    for given in (True, False, True, False):
+        out.append(lib_gdd(mk(s, langs=L, **({"givenOrder": True} if given else {}))))
+    singles = {l: lib_gdd(mk(s, langs=[l])) for l in L}
+    return out, singles
+
+
 def run(ctx):
     tier = ctx["tier"]
     R = rng("c13")
@@ -138,6 +148,21 @@ def run(ctx):
         if b.get("r") != val(i):
             viol.append({"law": "a regional selection applies the conventions of the locale it reports (same result as selecting that locale by name)", "s": s,
                          "languages": L, "region": rgn, "reported": loc, "by_region": val(i), "by_name_in_a_clean_process": b})
+    # both orders of one list inside one process (the loader is shared state)
+    seq_jobs = []
+    for _ in range(24 if tier == "quick" else 400):
+        L = R.sample(major[:12], R.randint(2, 3))
+        if L == sorted(L, key=order.index):
+            L = L[::-1]
+        seq_jobs.append((R.choice(["02-03-2016", "10/11/2012 10:30", "2015-06-07", "3 mars 2019", "5 mayo 2014", "1 März 2020"]), L))
+    for (s, L), (outs, singles) in zip(seq_jobs, pmap(seq_probe, seq_jobs, chunksize=1, force=True)):
+        for given, o in zip((True, False, True, False), outs):
+            usedorder = L if given else sorted(L, key=order.index)
+            first = next((singles[l].get("r") for l in usedorder if singles[l].get("r") is not None), None)
+            got = o.get("r") if "r" in o else "ERR:" + o["e"]
+            if got != first:
+                viol.append({"law": "multi-language result = first successful single-language result (same list, both orders, one process)", "s": s, "languages": L,
+                             "use_given_order": given, "order_used": usedorder, "multi": got, "expected": first})
     auto2 = []
     for s, i in auto:
         r = val(i)
@@ -164,7 +189,7 @@ def run(ctx):
     cov = {"evaluations": len(cases) + len(det), "distinct_nontrivial": len(distinct),
            "rule": "corpus strings × random language subsets/orderings (containing or not the detected language), use_given_order on/off, DEFAULT_LANGUAGES, region vs locale, full autodetection sample; non-trivial = distinct strings with a multi-language result",
            "samples": [{"s": p[0], "languages": p[2], "use_given_order": p[4], "default_languages": p[7]} for p in plan[:5]],
-           "laws_checked": 9, "law_violations": len(viol), "region_locale_pairs": len(reg), "multi_language_region_selections": len(multi), "of_which_parsed": len(byname), "autodetect_all_languages": len(auto),
+           "laws_checked": 10, "same_list_both_orders_in_one_process": len(seq_jobs), "law_violations": len(viol), "region_locale_pairs": len(reg), "multi_language_region_selections": len(multi), "of_which_parsed": len(byname), "autodetect_all_languages": len(auto),
            "model_compared": len(sub) if "model-build" not in ctx["broken"] else 0, "model_rejected": dict(rej), "model_drift": len(drift),
            "model_drift_samples": [{"s": d["case"]["s"], "langs": d["case"].get("langs"), "model": d["model"], "lib": d["lib"]} for d in drift[:5]]}
     return {"violations": out, "known": [], "coverage": cov, "level": "proof",
